@@ -51,6 +51,13 @@ MENU = [
     ("for-nest-bare", "FOR I=1 TO 2:FOR J=1 TO 2:{m}:NEXT:NEXT", None, set()),
     ("for-nest-bare-ji", "FOR J=1 TO 2:FOR I=1 TO 2:{m}:NEXT:NEXT", None, set()),
     ("for-nest-mixed", "FOR I=1 TO 2:FOR J=1 TO 2:{m}:NEXT J:NEXT", None, set()),
+    ("for-nest3-list-bare", "FOR I=1 TO 2:FOR J=1 TO 2:FOR K=1 TO 2:{m}:NEXT K,J:{m}:NEXT", None, set()),
+    ("for-nest3-bare", "FOR I=1 TO 2:FOR J=1 TO 2:FOR K=1 TO 2:{m}:NEXT:{m}:NEXT:{m}:NEXT", None, set()),
+    ("for-nest3-mixed", "FOR I=1 TO 2:FOR J=1 TO 2:FOR K=1 TO 2:{m}:NEXT K:NEXT:{m}:NEXT I", None, set()),
+    ("for-nest3-list3", "FOR I=1 TO 2:FOR J=1 TO 2:FOR K=1 TO 2:{m}:NEXT K,J,I", None, set()),
+    ("for-nest3-bare-list", "FOR I=1 TO 2:FOR J=1 TO 2:FOR K=1 TO 2:{m}:NEXT:NEXT J,I", None, set()),
+    ("for-seq-bare", "FOR I=1 TO 2:{m}:NEXT:FOR J=1 TO 2:{m}:NEXT", None, set()),
+    ("for-nest-list-then-for", "FOR I=1 TO 2:FOR J=1 TO 2:{m}:NEXT J,I:FOR K=1 TO 2:{m}:NEXT", None, set()),
     ("for-multiline", "FOR I=1 TO 2", "NEXT:", set()),
     ("for-multiline-var", "FOR I=1 TO 2", "NEXT I:", set()),
     ("for-if-exit", "FOR I=1 TO 3:IF I=A THEN {t}", "NEXT:", set()),
